@@ -44,7 +44,8 @@ Value& STRPOSExpression::value(Context & ctx) const
     if (_args.size() > 2)
     {
       Value& a2 = _args[2]->value(ctx);
-      switch (a2.type().major())
+      /* a null start position, typed or not, gives a null result */
+      switch (a2.isNull() ? Type::NO_TYPE : a2.type().major())
       {
       case Type::NO_TYPE:
         if (val.lvalue())
